@@ -15,7 +15,7 @@ import (
 var Schemas = []string{
 	// 0: kitchen sink
 	`
-type Query { a: Int  s: String  o(x: Int, d: Int! = 1, l: [Int!], in: In, e: E, c: Custom, one: One, id: ID, fl: Float, b: Boolean, st: String, nn: [Int]! = [1]): Obj  q(r: Int!, x: Int): Obj  i: Iface  u: Un  list: [Obj!]! }
+type Query { a: Int  s: String  o(x: Int, d: Int! = 1, l: [Int!], in: In, e: E, c: Custom, one: One, id: ID, fl: Float, b: Boolean, st: String, nn: [Int]! = [1], ll: [[Int!]]): Obj  q(r: Int!, x: Int): Obj  i: Iface  u: Un  list: [Obj!]! }
 type Mutation { m: Int }
 type Subscription { a: Int  b: Int  o: Obj }
 type Obj implements Iface { a: Int  b: Int  id: ID!  o: Obj  s: String  x(k: Int, l: [Int], in: In): String  n: Int! }
@@ -24,7 +24,7 @@ interface Iface { id: ID!  o: Obj }
 union Un = Obj | Obj2
 enum E { X Y }
 scalar Custom
-input In { f: Int!  g: E = X  n: In  l: [Int] }
+input In { f: Int!  g: E = X  n: In  l: [Int]  ll: [[Int]] }
 input One @oneOf { p: Int  q: String }
 directive @d(x: Int) on FIELD | QUERY | FRAGMENT_SPREAD | INLINE_FRAGMENT | FRAGMENT_DEFINITION | VARIABLE_DEFINITION
 directive @rep(x: Int) repeatable on FIELD | QUERY
@@ -36,6 +36,8 @@ directive @req(x: Int!) on FIELD
 type Query { a: Int  o: Obj }
 type Obj { a: Int }
 `,
+	// 2: variable types of C14
+	VarSchema,
 }
 
 func LoadTestSchema(i int) *ast.Schema {
@@ -148,7 +150,7 @@ func (b *B) value(allowVar bool) {
 		b.leafValue()
 	case 1: // list
 		b.p(hparse.KBracketL)
-		switch b.alt(4) {
+		switch b.alt(6) {
 		case 0:
 		case 1:
 			b.leafValue()
@@ -161,6 +163,15 @@ func (b *B) value(allowVar bool) {
 			} else {
 				b.n("null")
 			}
+		case 4: // a list inside the list
+			b.p(hparse.KBracketL)
+			b.leafValue()
+			b.p(hparse.KBracketR)
+		case 5: // a list and a single value side by side
+			b.p(hparse.KBracketL)
+			b.leafValue()
+			b.p(hparse.KBracketR)
+			b.leafValue()
 		}
 		b.p(hparse.KBracketR)
 	case 2: // object with one field
@@ -213,7 +224,7 @@ var Shapes = []func(b *B){
 		b.braces(func() {
 			b.pick("o", "q")
 			b.p(hparse.KParenL)
-			b.pick("x", "r", "d", "l", "in", "e", "c", "one", "id", "fl", "b", "st", "zz")
+			b.pick("x", "r", "d", "l", "in", "e", "c", "one", "id", "fl", "b", "st", "zz", "ll")
 			b.p(hparse.KColon)
 			b.value(false)
 			b.p(hparse.KParenR)
@@ -664,6 +675,58 @@ var Shapes = []func(b *B){
 				}
 				b.braces(func() { b.n("a") })
 			}
+		})
+	},
+	// 14: a variable used bare, or only inside a list / object literal (small: for the
+	// harnesses that validate a document many times)
+	func(b *B) {
+		b.ns("query", "Q")
+		b.p(hparse.KParenL, hparse.KDollar)
+		b.n("v")
+		b.p(hparse.KColon)
+		b.pick("Int", "String")
+		b.p(hparse.KParenR)
+		b.braces(func() {
+			b.n("o")
+			b.p(hparse.KParenL)
+			b.pick("l", "in", "x", "ll")
+			b.p(hparse.KColon)
+			switch b.alt(6) {
+			case 0:
+				b.variable()
+			case 1:
+				b.p(hparse.KBracketL)
+				b.variable()
+				b.p(hparse.KBracketR)
+			case 2:
+				b.p(hparse.KBracketL)
+				b.lit(hparse.KInt, "1")
+				b.variable()
+				b.p(hparse.KBracketR)
+			case 3:
+				b.p(hparse.KBraceL)
+				b.n("f")
+				b.p(hparse.KColon)
+				b.variable()
+				b.p(hparse.KBraceR)
+			case 4:
+				b.p(hparse.KBraceL)
+				b.ns("f")
+				b.p(hparse.KColon)
+				b.lit(hparse.KInt, "1")
+				b.n("n")
+				b.p(hparse.KColon, hparse.KBraceL)
+				b.n("f")
+				b.p(hparse.KColon)
+				b.variable()
+				b.p(hparse.KBraceR, hparse.KBraceR)
+			case 5:
+				b.p(hparse.KBracketL, hparse.KBracketL)
+				b.variable()
+				b.p(hparse.KBracketR, hparse.KBracketR)
+			}
+			b.p(hparse.KParenR)
+			b.braces(func() { b.n("a") })
 		})
 	},
 }
